@@ -239,6 +239,9 @@ def judge_log(ctx, log, res, spec, params, tag, corrupt=None):
     if res.timed_out:
         ctx.inconclusive("watchdog:walk")
         return 0
+    if res.rc == 127:                      # the dynamic loader failed: libsimgrid.so was being relinked by a concurrent build
+        ctx.inconclusive("loader")
+        return 0
     if log.errors or not log.ended or log.malformed:
         ctx.count("runs.harness_error")
         ctx.count("runs.harness_error." + (log.errors[0].split()[0] if log.errors else "incomplete"))
